@@ -80,6 +80,17 @@ def check_case(ref, s, groups=None):
     if not any(c in s for c in "'\\"):
         attempt("repr", lambda: eval(repr(x), {"Sid": Sid}))
     attempt("copy", lambda: x.copy())
+    # a caller that edits the dictionary it got from .fields (to build a sibling) must not change what the string denotes
+    try:
+        dd = x.fields
+        for k in list(dd):
+            dd[k] = "edited"
+        dd.clear()
+        y = Sid(s)
+        if list(y.fields.items()) != items or y.string != s or list(x.fields.items()) != items:
+            bad("fields-dictionary-is-shared-with-the-sid", [list(y.fields.items())[:3]], items[:3])
+    except Exception as e:  # noqa
+        bad(f"fields-mutation/exception/{type(e).__name__}", repr(e), "no effect")
     if groups is not None:
         groups[0].setdefault(x, set()).add((t, tuple(items)))
     return out, "typed:" + t
